@@ -43,7 +43,7 @@ class _W:
         return getattr(self._f, n)
 
 
-def record_trace(fn, watch_prefix=None):
+def record_trace(fn, watch_prefix=None, reads=False):
     trace = []
     o_open, o_mkdir, o_replace, o_rename, o_remove, o_rmdir = (
         builtins.open,
@@ -69,13 +69,18 @@ def record_trace(fn, watch_prefix=None):
         if any(c in mode for c in "wax+") and isinstance(file, (str, bytes, os.PathLike)) and watched(file):
             trace.append(["open", os.path.abspath(os.fspath(file)), mode])
             return _W(f, os.path.abspath(os.fspath(file)), trace)
+        if reads and isinstance(file, (str, bytes, os.PathLike)) and watched(file) and (os.sep + "ascmhl" + os.sep) not in os.path.abspath(os.fspath(file)):
+            # a media file opened for reading: no effect on disk, but a point in time (what the run has made before it
+            # starts reading the media is exposed to a kill for as long as the hashing takes)
+            trace.append(["readopen", os.path.abspath(os.fspath(file))])
         return f
 
     def wrap(name, orig, nargs):
         def g(*a, **k):
+            r_ = orig(*a, **k)  # (a call that raises - mkdir of an existing folder inside makedirs - did not happen)
             if any(watched(x) for x in a[:nargs]):
                 trace.append([name] + [os.path.abspath(os.fspath(x)) for x in a[:nargs]])
-            return orig(*a, **k)
+            return r_
 
         return g
 
@@ -298,7 +303,7 @@ def enumerate_crash_states(root, run_create, limit=None, torn_mode="sample"):
         # run the full create on `root` itself, but keep a pristine copy for the replays
         pristine = os.path.join(work, "pristine")
         shutil.copytree(root, pristine, symlinks=True)
-        trace, r = record_trace(run_create, watch_prefix=os.path.abspath(root))
+        trace, r = record_trace(run_create, watch_prefix=os.path.abspath(root), reads=True)
         post = committed_state(root)
         res["ops"] = len(trace)
         res["trace_full"] = trace
@@ -324,6 +329,11 @@ def enumerate_crash_states(root, run_create, limit=None, torn_mode="sample"):
             label = f"after op {plen}/{len(trace)} ({trace[plen-1][0] if plen else 'start'}{'' if torn is None else f', last write torn at {torn}'}{', buffered data lost' if lazy else ''})"
             probs = check_recoverable(pre, dst, post, label)
             if probs:
+                # was a media file read AFTER the run made an ascmhl folder?  (a run that makes the folder only when it
+                # commits reads nothing afterwards)
+                mk = next((j for j, o in enumerate(trace[:plen]) if o[0] == "mkdir" and os.path.basename(o[1]) == "ascmhl"), None)
+                if mk is not None and any(o[0] == "readopen" for o in trace[mk + 1:plen]):
+                    probs = [p_ + " [media files are read after the history folder was made]" for p_ in probs]
                 res["unrecoverable"].extend(probs)
         res["states"] = n
     finally:
@@ -380,6 +390,8 @@ def run_interrupted(fn, k, watch_prefix, exc=KeyboardInterrupt):
         if any(c in mode for c in "wax+") and isinstance(file, (str, bytes, os.PathLike)) and watched(file):
             tick()
             return _WI(o_open(file, mode, *a, **kw))
+        if isinstance(file, (str, bytes, os.PathLike)) and watched(file) and (os.sep + "ascmhl" + os.sep) not in os.path.abspath(os.fspath(file)):
+            tick()  # the run is also interrupted while it reads the media (Ctrl-C during hashing, an unreadable file)
         return o_open(file, mode, *a, **kw)
 
     def wrap(orig, nargs):
